@@ -47,6 +47,8 @@ func init() {
 	builtinModels["(*math/big.Int).Sign"] = modelBigSign
 	builtinModels["(*math/big.Int).Int64"] = modelBigToInt
 	builtinModels["(*math/big.Int).Uint64"] = modelBigToInt
+	builtinModels["(*bytes.Buffer).Len"] = modelNonNegative
+	builtinModels["(*bytes.Reader).Len"] = modelNonNegative
 	builtinModels["(*math/big.Int).IsInt64"] = modelOpaque
 	builtinModels["(*math/big.Int).Bytes"] = modelBigBytes
 	builtinModels["(*math/big.Int).BitLen"] = modelOpaque
@@ -129,6 +131,17 @@ func init() {
 		return nil, fc.store(l, Val{T: "(mk." + dt + " " + args[1].T + ")", S: cur.S, Typ: l.Typ})
 	}
 	builtinMods["(*sync/atomic.Value).Store"] = []string{"*"}
+}
+
+// modelNonNegative: a library length (bytes.Buffer.Len, bytes.Reader.Len): an unconstrained non-negative integer.
+func modelNonNegative(fc *FnCtx, c *ssa.CallCommon, args []Val, rt types.Type) (*Val, error) {
+	fc.vc.trust("library call " + shortCallee(calleeName(c)) + " returns an unconstrained non-negative length and has no effect on modelled state")
+	// the same buffer asked twice without a read in between gives the same answer: a function of the buffer
+	// and of the number of bytes consumed from it so far
+	fc.vc.declareFun("lib.buflen", []string{"Int", "Int"}, "Int")
+	t := "(lib.buflen " + args[0].T + " " + sel(fc.ghArr(ghConsumed), args[0].T) + ")"
+	fc.vc.assume(fc.cur.reach, "(>= "+t+" 0)")
+	return &Val{T: t, S: SInt, Typ: rt}, nil
 }
 
 func modelOpaque(fc *FnCtx, c *ssa.CallCommon, args []Val, rt types.Type) (*Val, error) {
